@@ -6,13 +6,15 @@ R-C04-2: CSR slot discipline: every slot of every row receives exactly one colum
          column appears twice in a row, row pointers/nnz/stencil sizes agree, no out-of-range slot.
 R-C04-3: the solver object factorises the matrix it assembled and solveInPlace hands the caller's vector to that factorisation.
 """
+import itertools
+
 from gmg import dag, ir, opsdom, report, structq, tab_ops
 from gmg.interp import Cell
 
 
 def shapes(tier):
     if tier == "quick":
-        return [(5, 4, 2, False), (6, 8, 3, True), (7, 8, 2, False), (5, 8, 0, True), (5, 4, 5, False), (7, 12, 3, False)]
+        return [(5, 4, 2, False), (6, 8, 3, True), (7, 8, 2, False), (5, 8, 0, True), (5, 4, 0, False), (5, 4, 5, False), (7, 12, 3, False)]
     return [(nr, nt, nsc, d) for nr, nt in ((5, 4), (6, 8), (7, 8), (9, 12)) for nsc in sorted(set((0, 2, 3, nr - 1, nr))) for d in (False, True)]
 
 
@@ -26,13 +28,13 @@ def main(tier):
     for cls in ("DirectSolverGiveCustomLU", "DirectSolverTakeCustomLU"):
         for m in ("buildSolverMatrix", "buildSolverMatrixCircleSection", "buildSolverMatrixRadialSection", "getStencil", "getStencilSize", "solveInPlace"):
             ck.analysed(prog.fn("%s::%s" % (cls, m)))
-    for (nr, nt, nsc, dirbc) in shapes(tier):
-        S = tab_ops.Setting(prog, nr, nt, nsc, dirbc)
-        sk = S.key()
+    for (nr, nt, nsc, dirbc), threads in itertools.product(shapes(tier), (2, 1)):
+        S = tab_ops.Setting(prog, nr, nt, nsc, dirbc, threads=threads)
+        sk = S.key() + (" threads=1 (sequential assembly path)" if threads == 1 else "")
         for cls, rcls in (("DirectSolverGiveCustomLU", "ResidualGive"), ("DirectSolverTakeCustomLU", "ResidualTake")):
             key = "%s %s" % (cls, sk)
             site = ir.locstr(prog.fn(cls + "::buildSolverMatrix"))
-            obj = opsdom.build_without_body(prog, S.dom, cls, "DirectSolver", [Cell(S.grid), Cell(S.cache(True, True)), Cell(S.geom), Cell(S.coef), dirbc, 2])
+            obj = opsdom.build_without_body(prog, S.dom, cls, "DirectSolver", [Cell(S.grid), Cell(S.cache(True, True)), Cell(S.geom), Cell(S.coef), dirbc, threads])
             n_oob = len(S.dom.oob)
             M = S.it.call_function(prog.fn(cls + "::buildSolverMatrix"), obj, [])
             T, probs = opsdom.csr_table(M)
